@@ -118,9 +118,11 @@ def frames_setattr_hook(ex, obj, name, v):
 
 class TransitionTask(Task):
     """The per-call contract of _decode_fast_message: it implements the transition function T of DESIGN Appendix A."""
-    def __init__(self, m):
+    def __init__(self, m, prop='C04', only=None):
         self.m = m
-        self.name = f'C04:_decode_fast_message[len(can_data)={m}]'
+        self.prop = prop
+        self.only = only
+        self.name = f'{prop}:_decode_fast_message[len(can_data)={m}]'
 
     def run(self, tier):
         out = {'results': [], 'functions': [], 'notes': [], 'bounded': []}
@@ -131,7 +133,7 @@ class TransitionTask(Task):
             return out
         out['functions'].append(info.describe())
         m = self.m
-        base = f'C04/{FUNC}[data_bytes={m}]'
+        base = f'{self.prop}/{FUNC}[data_bytes={m}]'
 
         def cdf(ex, f, args, kwargs):
             ex.ghost.setdefault('cdf_calls', []).append(list(args))
@@ -162,6 +164,8 @@ class TransitionTask(Task):
             inputs = st.inputs
 
             def add(name, goal, meta=None, hy=None):
+                if self.only is not None and not any(o in name for o in self.only):
+                    return
                 obs.append(Obligation(f'{base}/{name}/path[{pi}]', hyps if hy is None else hy, term(goal) if not isinstance(goal, z3.ExprRef) else goal,
                                       kind='ensures', func=info.fullname, inputs=inputs, meta=meta or {}))
             # frame: only the record of (pgn, src, dest) is read or written
